@@ -1190,7 +1190,7 @@ func Run(c *core.Ctx) {
 	if c.Race {
 		nExit = c.Pick(36, 360)
 		nIndep = c.Pick(12, 48)
-		nRand = c.Pick(480, 20000)
+		nRand = c.Pick(480, 8000)
 	}
 	for i := 0; i < nExit; i++ {
 		if c.Mine("exit", i) {
@@ -1207,7 +1207,7 @@ func Run(c *core.Ctx) {
 	for i := 0; i < c.Pick(48, 2000); i++ {
 		tidScenario(c, "tids", i)
 	}
-	for i := 0; i < c.Pick(480, 20000); i++ {
+	for i := 0; i < c.Pick(480, 8000); i++ {
 		freshScenario(c, "fresh", i)
 	}
 	for i := 0; i < nRand; i++ {
